@@ -290,11 +290,17 @@ func pages(input OmegaInput) (output OmegaOutput) {
 		}
 	}
 
-	if r > 2 && !isReadable(p, c, input.Addition.IntegratedPVMMap[n].Memory) {
-		input.VM.Registers[7] = HUH
-		return OmegaOutput{
-			ExitReason: ExitContinue,
-			Addition:   input.Addition,
+	// otherwise if r > 2 and one of the pages p...+c is inaccessible
+	if r > 2 {
+		u := input.Addition.IntegratedPVMMap[n].Memory
+		for i := uint32(p); i < uint32(p+c); i++ {
+			if u.GetPageAccess(i) == MemoryInaccessible {
+				input.VM.Registers[7] = HUH
+				return OmegaOutput{
+					ExitReason: ExitContinue,
+					Addition:   input.Addition,
+				}
+			}
 		}
 	}
 
